@@ -4,6 +4,8 @@
 //!   `<id> c10 <period> <input-hex>`      LZ10CompressionFormat::compress  -> `ok <hex> rt=ok|bad`
 //!   `<id> c13 <period> <input-hex>`      LZ13CompressionFormat::compress  -> `ok <hex> rt=ok|bad alloc=ok|big`
 //!   `<id> d10|d13|f10|f13 <stream-hex>`  decompress (f* = through CompressionFormat) -> `ok <hex> x=ok|diff` | `err Invalid x=…` | `panic`
+//!   `<id> g10|g13 <kind> <r> <m> s<seed> <n>`  C10 bounds on a *generated* periodic input (sent as parameters, not
+//!                                        as hex; both sides rebuild it with the same splitmix64): see `gen_pattern`
 //! `period` = a period of the input claimed by the generator (0 = none claimed).
 //! `rt` = the library's own decompress(compress(x)) == x; `alloc` = largest single allocation request
 //! during compress <= max(64, 13 + n + n/8); `x` = cross-check of LZ10 decompress against the third-party
@@ -63,6 +65,42 @@ fn lz_structured(rng: &mut Rng, target: usize, alphabet: u64) -> Vec<u8> {
     d
 }
 
+/// splitmix64 byte stream shared with `Driver/Lz.lean` (`smBytes`): state starts at `seed`, one byte per step.
+pub fn sm_bytes(seed: u64, len: usize) -> Vec<u8> {
+    let mut st = seed;
+    (0..len)
+        .map(|_| {
+            st = st.wrapping_add(0x9E3779B97F4A7C15);
+            let mut z = st;
+            z = (z ^ (z >> 30)).wrapping_mul(0xBF58476D1CE4E5B9);
+            z = (z ^ (z >> 27)).wrapping_mul(0x94D049BB133111EB);
+            (z ^ (z >> 31)) as u8
+        })
+        .collect()
+}
+
+/// Patterns for generated periodic inputs (period = pattern length), R = `sm_bytes(seed, r)`:
+///   kind 0  R                                  incompressible period: the p + 2 literal allowance is really used
+///   kind 1  R ++ R[0..m]                       self-overlapping: an internal partial repeat of m bytes at distance r
+///   kind 2  R ++ R[0..m] ++ R[r-m..r]          two internal repeats
+/// (R[m] is made different from R[0] so that the partial repeat of kind 1 stops after exactly m bytes.)
+pub fn gen_pattern(kind: usize, r: usize, m: usize, seed: u64) -> Vec<u8> {
+    let mut pat = sm_bytes(seed, r);
+    if kind == 0 {
+        return pat;
+    }
+    if m < r && pat[m] == pat[0] {
+        pat[m] ^= 0x55;
+    }
+    let head: Vec<u8> = pat[0..m].to_vec();
+    let tail: Vec<u8> = pat[r - m..r].to_vec();
+    pat.extend_from_slice(&head);
+    if kind == 2 {
+        pat.extend_from_slice(&tail);
+    }
+    pat
+}
+
 struct Out {
     lines: Vec<String>,
     n: usize,
@@ -77,6 +115,11 @@ impl Out {
     }
     fn one(&mut self, op: &str, period: usize, data: &[u8]) {
         self.lines.push(format!("lz.{:06} {} {} {}", self.n, op, period, hex(data)));
+        self.n += 1;
+    }
+    fn generated(&mut self, op: &str, kind: usize, r: usize, m: usize, seed: u64, n: usize) {
+        // the seed is written as `s<decimal>` so that the generic shrinker does not mistake it for a hex payload
+        self.lines.push(format!("lz.{:06} {} {} {} {} s{} {}", self.n, op, kind, r, m, seed, n));
         self.n += 1;
     }
     fn dec(&mut self, op: &str, s: &[u8]) {
@@ -227,6 +270,57 @@ fn gen_periodic(out: &mut Out, rng: &mut Rng, thorough: bool, few: bool) {
         for n in lens {
             out.compress(p, &periodic(&pattern, n));
         }
+    }
+}
+
+/// Long periodic inputs whose pattern has internal partial repeats (and long incompressible-pattern ones).
+///
+/// Why these shapes: the window is scanned farthest-first, so a search that settles for a far *partial* match
+/// (instead of going on to the nearer full-length one) is only visible when such a partial match lies farther
+/// away than the largest multiple of p in the window.  For pattern kind 1 (R ++ R[0..m], p = r + m) a token
+/// that starts at phase a < m has a partial match of m - a bytes at distance m + k p, which is beyond k p when
+/// 4096 mod p >= m.  After it the encoder is at phase m, takes a full 4096-byte match and lands at phase
+/// a' = (4096 + m) mod p.  Choosing p = (4096 + m - a') / j (j = 2..5, a' small) makes the process return to
+/// the same phase for ever: every full-length reference is followed by a short one.  The cost is only ~4 bytes
+/// per 4 KB and the literal allowance p + 2 hides `m` bytes of it (the internal repeat compresses), so the totals
+/// must be several hundred KB: n ~ 1400 m + 100 KB.
+fn gen_overlap(out: &mut Out, rng: &mut Rng, thorough: bool) {
+    let count = if thorough { 40 } else { 6 };
+    for i in 0..count {
+        let kind = if i % 3 == 2 { 2 } else { 1 };
+        let (r, m, p) = loop {
+            let j = rng.range(2, 5) as usize;
+            let m = if i % 2 == 0 { rng.range(273, 340) } else { rng.range(273, 620) } as usize;
+            let a = (4096 + m) % j;
+            if a + 273 > m {
+                continue;
+            }
+            let p = (4096 + m - a) / j;
+            let copies = if kind == 2 { 2 } else { 1 };
+            if p <= (copies + 1) * m + 1 || 4096 % p < copies * m {
+                continue;
+            }
+            break (p - copies * m, m, p);
+        };
+        let n = (1400 * m + 100_000 + rng.below(50_000) as usize).min(1_150_000);
+        let seed = rng.next();
+        out.generated("g13", kind, r, m, seed, n);
+        if i % 3 == 0 {
+            out.generated("g10", kind, r, m, seed, 60_000 + p);
+        }
+        if kind == 2 {
+            // two internal repeats are much more sensitive: moderate totals as well
+            out.generated("g13", kind, r, m, seed ^ 1, 40_000 + 20 * p);
+        }
+    }
+    // the coordinator's witness shape: p = 2198 = 1898 + 300 (4096 mod 2198 = 1898)
+    out.generated("g13", 1, 1898, 300, rng.next(), 564_886);
+    // incompressible periods, long totals: no slack in the literal allowance
+    let count = if thorough { 24 } else { 6 };
+    for i in 0..count {
+        let p = *rng.pick(&[2usize, 3, 17, 19, 273, 1000, 2047, 2048, 2049, 3000, 4095, 4096]);
+        let n = rng.range(100_000, if thorough { 900_000 } else { 400_000 }) as usize;
+        out.generated(if i % 2 == 0 { "g13" } else { "g10" }, 0, p, 0, rng.next(), n);
     }
 }
 
@@ -515,10 +609,17 @@ fn code_parity(v: &[u8]) -> bool {
     v.iter().fold(0u32, |a, b| a.wrapping_mul(31).wrapping_add(*b as u32)) % 2 == 0
 }
 
-/// The four properties share this family.  The orchestrator passes the output path
-/// `work/<ID>/lz.<profile>.cases.txt`; the property id in it selects the part of the stream (and the
-/// oracle clauses, through the op names) that belongs to that property.  Without an id: everything.
+/// The four properties share this family.  The orchestrator exports `VERIF_PROP=<ID>` (fallback: the id
+/// in the output path `work/<ID>/…`); it selects the part of the stream (and, through the op names, the
+/// oracle clauses) that belongs to that property.  Without an id: everything.
 fn property_from_args() -> Option<&'static str> {
+    if let Ok(v) = std::env::var("VERIF_PROP") {
+        for id in ["C08", "C09", "C10", "C11"] {
+            if v == id {
+                return Some(id);
+            }
+        }
+    }
     for a in std::env::args() {
         for id in ["C08", "C09", "C10", "C11"] {
             if a.contains(&format!("/{}/", id)) {
@@ -552,6 +653,7 @@ pub fn gen_for(pid: Option<&str>, seed: u64, tier: &str) -> Vec<String> {
             out.ops = vec!["b10", "b13"];
             gen_compress(&mut out, &mut rng, thorough, 3);
             gen_periodic(&mut out, &mut rng, thorough, false);
+            gen_overlap(&mut out, &mut rng, thorough);
         }
         Some("C11") => {
             gen_decode(&mut out, &mut rng, thorough, 6);
@@ -560,6 +662,7 @@ pub fn gen_for(pid: Option<&str>, seed: u64, tier: &str) -> Vec<String> {
             out.ops = vec!["c10", "c13", "b10", "b13"];
             gen_compress(&mut out, &mut rng, thorough, 1);
             gen_periodic(&mut out, &mut rng, thorough, true);
+            gen_overlap(&mut out, &mut rng, thorough);
             gen_decode(&mut out, &mut rng, thorough, 1);
         }
     }
@@ -607,9 +710,14 @@ pub fn run_line(_st: &mut super::State, line: &str) -> String {
     let f: Vec<&str> = line.split(' ').collect();
     let id = f[0];
     let out = match f[1] {
-        "c10" | "c13" | "b10" | "b13" => {
-            let data = unhex(f[3]);
-            let is13 = f[1] == "c13" || f[1] == "b13";
+        "c10" | "c13" | "b10" | "b13" | "g10" | "g13" => {
+            let data = if f[1].starts_with('g') {
+                let pat = gen_pattern(f[2].parse().unwrap(), f[3].parse().unwrap(), f[4].parse().unwrap(), f[5].trim_start_matches('s').parse().unwrap());
+                periodic(&pat, f[6].parse().unwrap())
+            } else {
+                unhex(f[3])
+            };
+            let is13 = f[1].ends_with("13");
             crate::alloc::max_request_reset();
             let r = no_panic(|| {
                 if is13 {
